@@ -178,9 +178,20 @@ class ProcessEquiv:
         s.force_nl = params.get('force_nl', True)
         s.step_limit = params.get('step_limit', 200_000)
         s.twin = params.get('twin', False)
+        # concrete stream mode: realistic messages with long answers, every chunking still forked
+        s.concrete = bytes.fromhex(params['concrete']) if params.get('concrete') else None
+        s.long_answers = params.get('long_answers', False)
+
+    def new_dev(s):
+        dev = s.w.new_device(s.dev)
+        if s.long_answers:
+            from ..world import mk_str
+            for i in range(8):
+                dev.f[0].script[i] = ('ok', mk_str(b'0123456789'))
+        return dev
 
     def one(s, x, **adkw):
-        dev = s.w.new_device(s.dev)
+        dev = s.new_dev()
         ad = ScriptAdapter(list(x), **adkw)
         r = s.w.process(dev, s.N, ad)
         writes = tuple(tuple(t[1]) for t in ad.trace if t[0] == 'w')
@@ -189,9 +200,12 @@ class ProcessEquiv:
     def body(s):
         ex, w = s.ex, s.w
         ex.step_limit = s.step_limit
-        x = sym_bytes(ex, s.S, 'b', s.alphabet)
-        if s.force_nl:
-            ex.solver.add(x[-1] == 10)
+        if s.concrete is not None:
+            x = list(s.concrete)
+        else:
+            x = sym_bytes(ex, s.S, 'b', s.alphabet)
+            if s.force_nl:
+                ex.solver.add(x[-1] == 10)
         s.x = x
         res = {'viol': []}
         pend = []
@@ -207,7 +221,7 @@ class ProcessEquiv:
             # Pending injection: one adapter future (position forked over the whole call sequence) and every async
             # handler suspend before completing; the observable behaviour must not change
             k = ex.decide([(i, True) for i in range(adB.calls)]) if adB.calls > 1 else 0
-            devP = s.w.new_device(s.dev)
+            devP = s.new_dev()
             devP.f[0].hpend = 1
             adP = ScriptAdapter(list(x), tail=1, pend=[k] if s.pending == 1 else [k, k + 1])
             s.w.process(devP, s.N, adP)
@@ -228,7 +242,7 @@ class ProcessEquiv:
                 cur = []
         res['n_msgs'] = len(msgs)
         if not cur and msgs and all(len(mm) <= s.N for mm in msgs):
-            dev = w.new_device(s.dev)
+            dev = s.new_dev()
             out = []
             for mm in msgs:
                 wr = HVec(s.N)
@@ -257,7 +271,7 @@ class ProcessEquiv:
             for v in viol:
                 m = v[2] if len(v) > 2 and v[2] is not None else ex.path_model()
                 wit = model_bytes(m, s.x)
-                rec['violations'].append({'rule': v[0], 'what': f'{v[1]}: stream {bytes_repr(wit)} N={s.N}', 'input': wit.hex(), 'device': s.dev, 'n': s.N,
+                rec['violations'].append({'rule': v[0], 'what': f'{v[1]}: stream {bytes_repr(wit)} N={s.N}', 'input': wit.hex(), 'device': s.dev, 'n': s.N, 'long_answers': s.long_answers,
                                           'chunks': getattr(s, 'chosen', None), 'role': v[0] + ':' + role_c07(wit, s.N, getattr(s, 'chosen', None))})
         if hash(tuple(map(str, ex.decisions))) % 499 == 0:
             rec['sample'] = {'stream': bytes_repr(model_bytes(ex.path_model(), s.x)), 'chunks': getattr(s, 'chosen', None), 'N': s.N}
